@@ -714,6 +714,21 @@ def make_namedtuple_class(interp, name, ns, module, qualname):
 # native attribute access on python values / ropes
 # ----------------------------------------------------------------------------
 def native_getattr(interp, obj, name):
+    from . import rx
+    if isinstance(obj, rx.RxPattern):
+        if name in ("fullmatch", "match", "search"):
+            return INative("re.Pattern." + name, lambda s_: getattr(rx, name)(obj, s_))
+        if name in ("pattern", "flags", "groups", "groupindex"):
+            return getattr(obj, name)
+        raise OutOfReach(f"re.Pattern.{name}")
+    if isinstance(obj, rx.RxMatch):
+        if name in ("group", "groupdict", "groups", "span", "start", "end"):
+            return INative("re.Match." + name, getattr(obj, name))
+        if name == "string":
+            return obj.string
+        if name == "re":
+            return obj.re
+        raise OutOfReach(f"re.Match.{name}")
     if isinstance(obj, IStream):
         return native_stream_attr(interp, obj, name)
     if isinstance(obj, IByteArray):
@@ -917,8 +932,10 @@ def _seq_method(interp, s, name, ba=None):
         def replace(a, b, *rest):
             if conc(a, b, *rest):
                 return s.replace(a, b, *rest)
-            if rest or ops.is_sym(a) or ops.is_sym(b):
-                raise OutOfReach("replace with symbolic pattern")
+            if rest:
+                raise OutOfReach("replace with a count")
+            if not ((ops.is_str(a) and ops.is_str(b)) if kind == "str" else (ops.is_bytes(a) and ops.is_bytes(b))):
+                raise TypeError("replace() arguments must be " + kind)
             return strs.rope_replace(s, a, b)
         return INative(kind + ".replace", replace)
     if name in ("lower", "upper"):
@@ -1477,10 +1494,14 @@ def library_module(interp, name):
                     gethostbyname=IStub("socket.gethostbyname", "env"), getaddrinfo=IStub("socket.getaddrinfo", "env"),
                     gethostname=IStub("socket.gethostname", "env"), AddressFamily=IStub("AddressFamily", "env"))
     if name == "re":
-        def _re(*a, **k):
-            raise OutOfReach("regular expressions are outside the engine (bounded stand-in only)")
-        return _mod("re", compile=N("re.compile", lambda *a, **k: IStub("re.Pattern", "regex")), IGNORECASE=2,
-                    search=N("re.search", _re), match=N("re.match", _re))
+        from . import rx
+        import re as _pyre
+        return _mod("re", compile=N("re.compile", rx.compile_),
+                    IGNORECASE=int(_pyre.IGNORECASE), I=int(_pyre.IGNORECASE), MULTILINE=int(_pyre.MULTILINE), DOTALL=int(_pyre.DOTALL),
+                    VERBOSE=int(_pyre.VERBOSE), ASCII=int(_pyre.ASCII),
+                    fullmatch=N("re.fullmatch", lambda p, s_, flags=0: rx.fullmatch(rx.compile_(p, flags), s_)),
+                    match=N("re.match", lambda p, s_, flags=0: rx.match(rx.compile_(p, flags), s_)),
+                    search=N("re.search", lambda p, s_, flags=0: rx.search(rx.compile_(p, flags), s_)))
     if name == "time":
         def _time():
             raise OutOfReach("time.time()")
